@@ -6,7 +6,8 @@ import ast
 from typing import Set
 
 from ..core import rule
-from ..program import AnalysisError, dotted, src, walk_local
+from ..program import AnalysisError, dotted, src
+from ..core import walk_local  # inline-aware
 from .common import where
 
 COLL = "xandikos.collation"
